@@ -213,7 +213,7 @@ def gen_cases(chk):
         W = rng.choice([0, 1, 2, 2, 3, 3, 4, 5, 6, 7, 9])
         n = rng.randint(0, 40)
         cases.append(dict(n=n, W=W, mode=rng.choice(MODES), kind=rng.choice(["random", "random", "sequential"]),
-                          e0=rng.randint(0, 5), k=rng.randint(0, 3), seed=rng.randint(0, 2**31 - 1),
+                          e0=rng.randint(0, 5), k=rng.randint(0, 3), seed=rng.choice([0, 0, 1, 2**31 - 1, rng.randint(0, 2**31 - 1), rng.randint(0, 2**31 - 1)]),
                           run=rng.choice(["seq", "seq", "overlap", "probe"]), stream="random"))
     return cases
 
